@@ -153,6 +153,9 @@ class Spec:
                    "no symlink loops"]
     checks = {"execset", "content", "once"}
 
+    def accepts(self, case):
+        return "holder" not in case
+
     def cases(self, tier):
         return 800 if tier == "quick" else 8000
 
@@ -164,6 +167,11 @@ class Spec:
 
 
 SPEC = Spec()
+
+
+def spec_for(case):
+    from . import c15s
+    return c15s.SPEC if "holder" in case else SPEC
 
 
 def run_check(tier, seed):
@@ -178,6 +186,9 @@ def run_check(tier, seed):
         for name, (mode, n, extra) in plan.items():
             parts[name] = inproc.run(mode, n, seed, *extra)
     code, ev = engine.run_property("rv.props.c15", tier, seed)
+    code_s, ev_s = engine.run_property("rv.props.c15s", tier, seed)
+    ev = engine.merge_evidence(ev, ev_s, "serial histories", "spellings of a target that another invocation holds locked")
+    code = 1 if 1 in (code, code_s) else max(code, code_s)
     cov = ev["coverage"]
     cov["inproc"] = {}
     for name, r in parts.items():
